@@ -25,7 +25,22 @@ type State struct {
 	epoch   string // non-empty after a havoc-everything: maps first read later get epoch constants
 	unknownWrites bool
 	cands []string // candidate integer terms for ground instantiation of hypotheses
+	lens  []string // lengths of append prefixes seen on the path (offsets for instantiation candidates)
 	loopEntry map[int]*State // heap view at the entry of each loop (by ordinal)
+}
+
+func (s *State) addLen(t string) {
+	if t == "" || len(t) > 200 || t == "0" {
+		return
+	}
+	for _, c := range s.lens {
+		if c == t {
+			return
+		}
+	}
+	if len(s.lens) < 6 {
+		s.lens = append(s.lens, t)
+	}
 }
 
 func (s *State) addCand(t string) {
@@ -37,8 +52,9 @@ func (s *State) addCand(t string) {
 			return
 		}
 	}
-	if len(s.cands) < 16 {
-		s.cands = append(s.cands, t)
+	s.cands = append(s.cands, t)
+	if len(s.cands) > 20 {
+		s.cands = s.cands[len(s.cands)-20:] // keep the most recent index terms
 	}
 }
 
@@ -58,6 +74,7 @@ func (s *State) clone() *State {
 		unknownWrites: s.unknownWrites,
 		cands: append([]string(nil), s.cands...),
 		loopEntry: map[int]*State{},
+		lens: append([]string(nil), s.lens...),
 	}
 	for k, v := range s.loopEntry {
 		n.loopEntry[k] = v
@@ -150,16 +167,18 @@ func (e *Env) typedMapAxiom(name, c string) {
 		read = "(select " + c + " r!)"
 		binders = "((r! Int))"
 	}
-	var ts *State
+	f := e.typeFacts(nil, Value{T: read, Sort: e.sr.sortOf(mt.T), GoT: mt.T})
+	if f != "true" {
+		e.ctx.axiom("(forall " + binders + " (! " + f + " :pattern (" + read + ")))")
+	}
 	if strings.HasSuffix(c, "!0") {
-		// initial heap: every stored reference was allocated before entry
-		ts = &State{alloc: "alloc!0"}
+		// initial heap: every reference stored in an object that existed at entry was allocated
+		// before entry (locations of objects allocated later are unconstrained)
+		g := e.typeFacts(&State{alloc: "alloc!0"}, Value{T: read, Sort: e.sr.sortOf(mt.T), GoT: mt.T})
+		if g != f && g != "true" {
+			e.ctx.axiom("(forall " + binders + " (! (=> (<= r! alloc!0) " + g + ") :pattern (" + read + ")))")
+		}
 	}
-	f := e.typeFacts(ts, Value{T: read, Sort: e.sr.sortOf(mt.T), GoT: mt.T})
-	if f == "true" {
-		return
-	}
-	e.ctx.axiom("(forall " + binders + " (! " + f + " :pattern (" + read + ")))")
 }
 
 // heapGet returns the current term of a heap map, creating its initial constant on demand.
@@ -424,10 +443,12 @@ func (e *Env) typeFacts(s *State, v Value) string {
 		if v.Addr != nil {
 			return "true"
 		}
+		// references: nil is 0, allocated objects are positive and not beyond the allocation counter,
+		// interior references to embedded structs are negative
 		if s != nil && s.alloc != "" {
-			return and("(>= "+v.T+" 0)", "(<= "+v.T+" "+s.alloc+")")
+			return "(<= " + v.T + " " + s.alloc + ")"
 		}
-		return "(>= " + v.T + " 0)"
+		return "true"
 	case *types.Slice:
 		f := sliceWF(v.T)
 		if s != nil && s.alloc != "" {
